@@ -19,6 +19,10 @@ package aggregation
 //@   loop 2 invariant visited_in(1, lastkey_in(1)) && in_dom(s.rows, lastkey_in(1)) && map_get(s.rows, lastkey_in(1)) == r
 //@   loop 2 invariant forall rk: str :: forall ck: str :: visited_in(1, rk) && rk != lastkey_in(1) && in_dom(s.rows, rk) && in_dom(s.cols, ck) ==> min <= cell(s, rk, ck) && cell(s, rk, ck) <= max
 //@   loop 2 invariant forall ck: str :: visited_in(2, ck) && in_dom(s.cols, ck) ==> min <= cell(s, lastkey_in(1), ck) && cell(s, lastkey_in(1), ck) <= max
+// grand total: reads the column totals only (its value is covered by the bounded fold oracle)
+//@ func (*TableAggregator).Sum
+//@   requires s.cols != nil
+//@   pure
 //@ func (*TableAggregator).OrderedColumns
 //@   pure
 //@   trusted
